@@ -6,6 +6,8 @@ import (
 	"fmt"
 	"hash/fnv"
 	"os"
+	"strconv"
+	"syscall"
 	"time"
 
 	"github.com/notaryproject/notation-core-go/signature"
@@ -31,6 +33,10 @@ func mix(seed int64, id int, salt string) uint32 {
 
 func main() {
 	flag.Parse()
+	// the umask is part of the environment the orchestrator picks (the harness sets the modes it cares about explicitly)
+	if u, err := strconv.ParseUint(os.Getenv("VERIF_UMASK"), 8, 32); err == nil && os.Getenv("VERIF_UMASK") != "" {
+		syscall.Umask(int(u))
+	}
 	start := time.Now()
 	var n int
 	switch *flagProp {
